@@ -257,32 +257,52 @@ func checkP3(p *Prog, r *Result) {
 			r.undecided("P3", key, "", "doOpsWorkload not found")
 			continue
 		}
-		// under `if processing != nil` (inside `if create`) the call is BatchCreateAndDecr
-		found := false
-		ops.inspectBody(func(n ast.Node) bool {
-			is, ok := n.(*ast.IfStmt)
+		// BatchCreateAndDecr is what runs when a marker is present (`processing != nil` holds on its path — as an if, a
+		// case of a switch, or after an early exit), and the plain BatchCreate only when it is absent
+		markerAt := func(n ast.Node) (present, known bool) {
+			conds, ok := pathConds(ops.Body, n)
 			if !ok {
-				return true
+				return false, false
 			}
-			be2, ok := unparen(is.Cond).(*ast.BinaryExpr)
-			if !ok || be2.Op != token.NEQ || !isNilIdent(be2.Y) {
-				return true
+			for _, c := range conds {
+				e, pos := unparen(c.Expr), c.Pos
+				for {
+					u, isNot := e.(*ast.UnaryExpr)
+					if !isNot || u.Op != token.NOT {
+						break
+					}
+					e, pos = unparen(u.X), !pos
+				}
+				be2, ok := e.(*ast.BinaryExpr)
+				if !ok || (be2.Op != token.NEQ && be2.Op != token.EQL) || !isNilIdent(be2.Y) {
+					continue
+				}
+				if o := ops.objOf(be2.X); o == nil || o.Name() != "processing" {
+					continue
+				}
+				return (be2.Op == token.NEQ) == pos, true
 			}
-			if o := ops.objOf(be2.X); o == nil || o.Name() != "processing" {
-				return true
-			}
-			for _, st := range is.Body.List {
-				inspectNoLit(st, func(y ast.Node) bool {
-					if c, ok := y.(*ast.CallExpr); ok {
-						if f := ops.Callee(c); f != nil && f.Name() == "BatchCreateAndDecr" {
+			return false, false
+		}
+		found, plainWrong := false, false
+		inspectNoLit(ops.Body, func(y ast.Node) bool {
+			if c, ok := y.(*ast.CallExpr); ok {
+				if f := ops.Callee(c); f != nil {
+					switch f.Name() {
+					case "BatchCreateAndDecr":
+						if v, known := markerAt(c); known && v {
 							found = true
 						}
+					case "BatchCreate":
+						if v, known := markerAt(c); known && v {
+							plainWrong = true
+						}
 					}
-					return true
-				})
+				}
 			}
 			return true
 		})
+		found = found && !plainWrong
 		r.check(found, "P3", key, p.pos(ops.Decl), "", "with a marker present the records are not created through BatchCreateAndDecr: create and decrement are no longer one atomic step")
 		bcd := p.Fn(be.bcd)
 		key2 := be.bcd + " creates and decrements in one transaction"
